@@ -87,7 +87,7 @@ pub fn describe_wrapped(w: &r3::Wrapped) -> String {
 pub fn run(ctx: &mut Ctx) {
     let fams = dfam::build(ctx.quick());
     let env = Env::new();
-    let sel = dfam::Sel { tiny: true, shapes: true, big: true, shape_cfg_stride: if ctx.quick() { 5 } else { 1 } };
+    let sel = dfam::Sel { tiny: true, shapes: true, big: true, sweep: true, shape_cfg_stride: if ctx.quick() { 7 } else { 1 } };
     dfam::for_each(ctx, &fams, sel, |ctx, it| {
         ctx.case(
             it.fam,
